@@ -30,8 +30,13 @@ COMBOS = ((True, True), (True, False), (False, True), (False, False))
 TYPE_NAMES = ["probing", "rest-probing", "trie", "quant-trie", "array-trie", "quant-array-trie"]
 
 
+TRANSLATION_ERROR = None
+
+
 def regenerate():
-    kspaces_gen.regen_spaces()
+    """never raises for an extraction problem (./check --setup calls this too): the reason is kept for run() to report"""
+    global TRANSLATION_ERROR
+    TRANSLATION_ERROR = kspaces_gen.regen_spaces_safe()
     return ["Gen/Spaces.v"]
 
 
@@ -645,6 +650,7 @@ def run(ctx):
         elif model_broken:
             ctx.report("model-broken", "executable model no longer builds", {"log": model_broken[-2000:]}, found=False)
         ctx.report_proof(pres)
+    kspaces_gen.report_translation(ctx, TRANSLATION_ERROR)
 
 
 def replay(ctx, obj):
